@@ -21,7 +21,7 @@ def nontrivial(log):
 
 def run(tier, seed, proof):
     return l1.run_property(PROP, tier, seed, proof, FAMILIES, MONS, SANS, nontrivial, RULE + RETRACT_RULE + loopgen.ENUM_RULE,
-                           extra_cases=lambda tier, seed: loopgen.retract_cases(seed) + loopgen.erronly_cases() + loopgen.quit_cases())
+                           extra_cases=lambda tier, seed: loopgen.retract_cases(seed) + loopgen.erronly_cases() + loopgen.quit_cases() + loopgen.alias_cases())
 
 
 def search(tier, seed, proof):
